@@ -74,7 +74,9 @@ func runC09Dispatch(c *Ctx) {
 				}
 				for k := range m.Missing {
 					key := strings.SplitN(k, " ", 2)[1]
-					if strings.Contains(key, "NumGeometries") {
+					// the number of members of a collection operand, whether asked
+					// through NumGeometries or as the length of its member list
+					if strings.Contains(key, "NumGeometries") || (strings.HasPrefix(key, "len(") && strings.Contains(key, "GeometryCollection(")) {
 						m.Num[key] = 0
 					}
 				}
